@@ -624,6 +624,10 @@ func cliEnv() (home, cwd string) {
 
 // runWtf runs the wtf binary in an isolated home and an empty working directory.
 func runWtf(args []string, extraEnv ...string) (stdout string, exit int, err error) {
+	return runWtfEnv(args, append([]string{"NO_COLOR=1"}, extraEnv...))
+}
+
+func runWtfEnv(args []string, extraEnv []string) (stdout string, exit int, err error) {
 	bin := os.Getenv("VERIF_WTF")
 	if bin == "" {
 		fatal("VERIF_WTF is not set")
@@ -631,7 +635,7 @@ func runWtf(args []string, extraEnv ...string) (stdout string, exit int, err err
 	home, cwd := cliEnv()
 	cmd := exec.Command(bin, args...)
 	cmd.Dir = cwd
-	cmd.Env = append([]string{"HOME=" + home, "XDG_CONFIG_HOME=" + filepath.Join(home, ".config"), "PATH=/usr/bin:/bin", "NO_COLOR=1"}, extraEnv...)
+	cmd.Env = append([]string{"HOME=" + home, "XDG_CONFIG_HOME=" + filepath.Join(home, ".config"), "PATH=/usr/bin:/bin"}, extraEnv...)
 	var ob, eb strings.Builder
 	cmd.Stdout, cmd.Stderr = &ob, &eb
 	e := cmd.Run()
